@@ -230,107 +230,114 @@ def numSuffix (isFloat isSigned : Bool) (l : List Char) : R (List Char × List C
           else .ok ([c], c2 :: r2)
     else .ok ([], c :: r)
 
+/-- leading part of a number: `.d`, `0b…`, `0x…` or nothing:
+    (consumed, is_float, is_binary_integer, is_hex_integer, remaining) -/
+def numLead (l1 : List Char) : R (List Char × Bool × Bool × Bool × List Char) :=
+  let c1 := peek l1
+  if c1 = '.' then
+    match l1.tail with
+    | [] => .error (err "CxxTokenizer::parseNumber" "invalid number")
+    | d :: r => if isDigit d then .ok (['.'], true, false, false, d :: r)
+                else .error (errC "CxxTokenizer::parseNumber" "expected digit, read '" d)
+  else if c1 = '0' then
+    match l1.tail with
+    | [] => .ok (['0'], false, false, false, [])
+    | x :: r =>
+      if x = 'b' then
+        match r with
+        | [] => .error (err "CxxTokenizer::parseNumber" "invalid binary integer")
+        | d :: _ =>
+          if !isBinary d then .error (err "CxxTokenizer::parseNumber" "invalid binary integer")
+          else
+            match binDigits r with
+            | .ok (a, b) => .ok ('0' :: 'b' :: a, false, true, false, b)
+            | .error e => .error e
+      else if x = 'x' then
+        match r with
+        | [] => .error (err "CxxTokenizer::parseNumber" "invalid hexadecimal integer")
+        | d :: _ =>
+          if !isHex d then .error (err "CxxTokenizer::parseNumber" "invalid hexadecimal integer")
+          else let (a, b) := hexDigits r; .ok ('0' :: 'x' :: a, false, false, true, b)
+      else .ok ([], false, false, false, l1)
+  else .ok ([], false, false, false, l1)
+
+/-- decimal part: (consumed, is_float, remaining) -/
+def numDec (isHexI isBin isFloat0 : Bool) (l3 : List Char) : R (List Char × Bool × List Char) :=
+  match l3 with
+  | c :: r =>
+    if c = '.' then
+      if isHexI then .error (err "CxxTokenizer::parseNumber" "invalid hexadecimal integer")
+      else if isBin then .error (err "CxxTokenizer::parseNumber" "invalid binary integer")
+      else if isFloat0 then .error (err "CxxTokenizer::parseNumber" "decimal sign multiply defined")
+      else
+        match digitsSep r with
+        | .ok (a, b) => .ok ('.' :: a, true, b)
+        | .error e => .error e
+    else .ok ([], isFloat0, l3)
+  | [] => .ok ([], isFloat0, [])
+
+/-- exponent: (consumed, is_float, remaining) -/
+def numExp (isHexI isBin isFloat1 : Bool) (l4 : List Char) : R (List Char × Bool × List Char) :=
+  match l4 with
+  | c :: r =>
+    if c = 'e' || c = 'E' then
+      if isHexI then .error (err "CxxTokenizer::parseNumber" "invalid hexadecimal integer")
+      else if isBin then .error (err "CxxTokenizer::parseNumber" "invalid binary integer")
+      else
+        match r with
+        | [] => .error (err "CxxTokenizer::parseNumber" "invalid number")
+        | s :: r1 =>
+          let hasS := s = '+' || s = '-'
+          let r2 := if hasS then r1 else s :: r1
+          if hasS && r1.isEmpty then .error (err "CxxTokenizer::parseNumber" "invalid number")
+          else
+            match r2 with
+            | [] => .error (err "CxxTokenizer::parseNumber" "invalid number")
+            | d :: r3 =>
+              if !isDigit d then .error (err "CxxTokenizer::parseNumber" "invalid number")
+              else
+                match digitsSep r3 with
+                | .ok (a, b) =>
+                  .ok (c :: (if hasS then [s] else []) ++ d :: a, isFloat1 || s = '-', b)
+                | .error e => .error e
+    else .ok ([], isFloat1, l4)
+  | [] => .ok ([], isFloat1, [])
+
+/-- C++11 user defined literal suffix -/
+def numUdl (l6 : List Char) : R (List Char × List Char) :=
+  match l6 with
+  | c :: r =>
+    if c = '_' then
+      if r.isEmpty then .error (err "CxxTokenizer::parseNumber" "invalid user litteral")
+      else let (a, b) := udlChars r; .ok (c :: a, b)
+    else .ok ([], l6)
+  | [] => .ok ([], [])
+
+/-- `throw_if((p != pe) && (*p == '.'), "invalid number")` -/
+def noDot (l : List Char) : R Unit :=
+  if peek l = '.' && !l.isEmpty then .error (err "CxxTokenizer::parseNumber" "invalid number") else .ok ()
+
 /-- `parseNumber`; returns (consumed text, remaining). The token value is the consumed text without `'`. -/
 def parseNumber (l : List Char) : R (List Char × List Char) := do
-  let E (m : String) : R (List Char × List Char) := .error (err "CxxTokenizer::parseNumber" m)
-  let ED (c : Char) : R (List Char × List Char) :=
-    .error (errC "CxxTokenizer::parseNumber" "expected digit, read '" c)
   -- sign
   let c0 := peek l
   let hasSign := c0 = '-' || c0 = '+'
   let isSigned := c0 = '-'
   let l1 := if hasSign then l.tail else l
   let sgn := if hasSign then [c0] else []
-  if hasSign && l1.isEmpty then E "invalid number" else
+  if hasSign && l1.isEmpty then .error (err "CxxTokenizer::parseNumber" "invalid number") else
   let c1 := peek l1
-  if !(isDigit c1) && c1 ≠ '.' then ED c1 else
-  -- leading part: `.`, `0b…`, `0x…`
-  let lead : R (List Char × Bool × Bool × Bool × List Char) :=
-    if c1 = '.' then
-      match l1.tail with
-      | [] => .error (err "CxxTokenizer::parseNumber" "invalid number")
-      | d :: r => if isDigit d then .ok (['.'], true, false, false, d :: r)
-                  else .error (errC "CxxTokenizer::parseNumber" "expected digit, read '" d)
-    else if c1 = '0' then
-      match l1.tail with
-      | [] => .ok (['0'], false, false, false, [])
-      | x :: r =>
-        if x = 'b' then
-          match r with
-          | [] => .error (err "CxxTokenizer::parseNumber" "invalid binary integer")
-          | d :: _ =>
-            if !isBinary d then .error (err "CxxTokenizer::parseNumber" "invalid binary integer")
-            else
-              match binDigits r with
-              | .ok (a, b) => .ok ('0' :: 'b' :: a, false, true, false, b)
-              | .error e => .error e
-        else if x = 'x' then
-          match r with
-          | [] => .error (err "CxxTokenizer::parseNumber" "invalid hexadecimal integer")
-          | d :: _ =>
-            if !isHex d then .error (err "CxxTokenizer::parseNumber" "invalid hexadecimal integer")
-            else let (a, b) := hexDigits r; .ok ('0' :: 'x' :: a, false, false, true, b)
-        else .ok ([], false, false, false, l1)
-    else .ok ([], false, false, false, l1)
-  let (ld, isFloat0, isBin, isHexI, l2) ← lead
+  if !(isDigit c1) && c1 ≠ '.' then .error (errC "CxxTokenizer::parseNumber" "expected digit, read '" c1) else
+  let (ld, isFloat0, isBin, isHexI, l2) ← numLead l1
   let (ds, l3) ← digitsSep l2
-  -- decimal part
-  let dec : R (List Char × Bool × List Char) :=
-    match l3 with
-    | c :: r =>
-      if c = '.' then
-        if isHexI then .error (err "CxxTokenizer::parseNumber" "invalid hexadecimal integer")
-        else if isBin then .error (err "CxxTokenizer::parseNumber" "invalid binary integer")
-        else if isFloat0 then .error (err "CxxTokenizer::parseNumber" "decimal sign multiply defined")
-        else
-          match digitsSep r with
-          | .ok (a, b) => .ok ('.' :: a, true, b)
-          | .error e => .error e
-      else .ok ([], isFloat0, l3)
-    | [] => .ok ([], isFloat0, [])
-  let (fs, isFloat1, l4) ← dec
-  if peek l4 = '.' && !l4.isEmpty then E "invalid number" else
-  -- exponent
-  let ex : R (List Char × Bool × List Char) :=
-    match l4 with
-    | c :: r =>
-      if c = 'e' || c = 'E' then
-        if isHexI then .error (err "CxxTokenizer::parseNumber" "invalid hexadecimal integer")
-        else if isBin then .error (err "CxxTokenizer::parseNumber" "invalid binary integer")
-        else
-          match r with
-          | [] => .error (err "CxxTokenizer::parseNumber" "invalid number")
-          | s :: r1 =>
-            let hasS := s = '+' || s = '-'
-            let r2 := if hasS then r1 else s :: r1
-            if hasS && r1.isEmpty then .error (err "CxxTokenizer::parseNumber" "invalid number")
-            else
-              match r2 with
-              | [] => .error (err "CxxTokenizer::parseNumber" "invalid number")
-              | d :: r3 =>
-                if !isDigit d then .error (err "CxxTokenizer::parseNumber" "invalid number")
-                else
-                  match digitsSep r3 with
-                  | .ok (a, b) =>
-                    .ok (c :: (if hasS then [s] else []) ++ d :: a, isFloat1 || s = '-', b)
-                  | .error e => .error e
-      else .ok ([], isFloat1, l4)
-    | [] => .ok ([], isFloat1, [])
-  let (es, isFloat, l5) ← ex
-  if peek l5 = '.' && !l5.isEmpty then E "invalid number" else
+  let (fs, isFloat1, l4) ← numDec isHexI isBin isFloat0 l3
+  noDot l4
+  let (es, isFloat, l5) ← numExp isHexI isBin isFloat1 l4
+  noDot l5
   let (sf, l6) ← numSuffix isFloat isSigned l5
-  if peek l6 = '.' && !l6.isEmpty then E "invalid number" else
-  -- C++11 user defined literals
-  let udl : R (List Char × List Char) :=
-    match l6 with
-    | c :: r =>
-      if c = '_' then
-        if r.isEmpty then .error (err "CxxTokenizer::parseNumber" "invalid user litteral")
-        else let (a, b) := udlChars r; .ok (c :: a, b)
-      else .ok ([], l6)
-    | [] => .ok ([], [])
-  let (us, l7) ← udl
-  if peek l7 = '.' && !l7.isEmpty then E "invalid number" else
+  noDot l6
+  let (us, l7) ← numUdl l6
+  noDot l7
   .ok (sgn ++ ld ++ ds ++ fs ++ es ++ sf ++ us, l7)
 
 def numberValue (consumed : List Char) : List Char := consumed.filter (· ≠ '\'')
